@@ -5,7 +5,7 @@ from tools import ks
 from tools.vlib import hx
 
 MODULE = "PropC12"
-THEOREMS = ["C12_code_conforms", "C12_lockset_sound", "C12_discipline_tags", "C12_discipline_ports_and_slots", "C12_only_accessors", "C12_no_writes_to_package_variables", "C12_tags_refuted_before_repair"]
+THEOREMS = ["C12_code_conforms", "C12_lockset_sound", "C12_discipline_tags", "C12_discipline_ports_and_slots", "C12_only_accessors", "C12_no_writes_to_package_variables", "C12_tags_refuted_before_repair", "C12_feeder_refuted_before_repair"]
 
 
 def build(rng, i):
@@ -98,6 +98,43 @@ def case(args):
         sc.close()
 
 
+def feeder_case(args):
+    """parameter feeders created by FromStr run as goroutines from the moment the port is wired; with few values they finish --
+    and drop their connection -- while the program is still wiring the workflow and RunTo traverses it upstream (finding D20)"""
+    seed, i = args
+    rng = random.Random(seed * 373587911 + i)
+    sp = t3.Spec(maxtasks=rng.randint(2, 4), bufsize=rng.choice([2, 128]))
+    n = rng.randint(4, 8)
+    prev = None
+    idxs = []
+    for k in range(n):
+        pars = [("q%d" % j, ("V", ["v%d" % (j)])) for j in range(rng.randint(1, 3))]
+        if prev is None:
+            p = t3.Proc("f%d" % k, kind="write", pars=pars, outs=[("o", "f%d.%s.txt" % (k, ".".join("{p:%s}" % q for q, _ in pars)))])
+        else:
+            p = t3.Proc("f%d" % k, kind="cattok", ins=[("a", [(prev, "o")])], pars=pars, outs=[("o", "{i:a}.f%d" % k)])
+        prev = sp.proc(p)
+        idxs.append(prev)
+    sp.runto = [rng.choice(idxs[n // 2:])]
+    sp.runto_mode = rng.choice(["N", "R", "P"])
+    sc = t3.Scratch()
+    try:
+        sc.plant(sp.files)
+        impl = t3.run_impl(sc, sp, binary="wfrun_race", timeout=120, env={"GORACE": "halt_on_error=0 exitcode=66"}, hooks_on=(rng.random() < 0.5))
+        problems = []
+        if "DATA RACE" in impl["stderr"] or impl["rc"] == 66:
+            i0 = impl["stderr"].find("WARNING: DATA RACE")
+            problems.append(("data-race", "the Go race detector reports a data race: " + impl["stderr"][i0:i0 + 1500]))
+        elif impl["timed_out"]:
+            problems.append(("hang", "race-built run did not terminate"))
+        elif impl["rc"] != 0:
+            problems.append(("unexpected-failure", "rc=%s %s" % (impl["rc"], impl["stderr"][-300:])))
+        return {"spec": sp.text(), "bufsize": sp.bufsize, "problems": problems, "ntasks": len(sp.nodes), "rc": impl["rc"], "stderr": impl["stderr"][-200:], "yield": None,
+                "wall": impl["wall"], "kind": "fromstr-feeders+runto"}
+    finally:
+        sc.close()
+
+
 def run(rep, tier, seed):
     proved = vlib.prove(rep, MODULE, THEOREMS)
     out = vlib.build_go(race=True)
@@ -107,10 +144,11 @@ def run(rep, tier, seed):
     n = 35 if tier == "quick" else 560
     results = t3.run_many(case, [(seed, i) for i in range(n)], workers=8)
     results += t3.run_many(ks.ks_case, [(seed, i, ("race",)) for i in range(n // 3)], workers=8)
+    results += t3.run_many(feeder_case, [(seed, i) for i in range(n // 2)], workers=8)
     t3.report_t3(rep, MODULE, proved, results, "lock discipline on the regenerated skeletons / race-detector runs")
     rep.cov["evaluations"] = len(results)
     rep.cov["distinct_nontrivial"] = len({r["spec"] for r in results})
-    rep.cov["rule"] = "workflows built with `go build -race -tags verif`: fan-out of one out-port to several consumers incl. a tagging component (MapToTags) and sibling outputs, tagging on a shared source plus group-by-tag concatenation, fan-in with multi-core tasks and parameter feeders, sub-streams + streaming + chains, sibling consumers whose output patterns use path modifiers / default names / parameter feeders, a tagging component beside a Concatenator on one out-port, one sub-stream carrier fanned out to several joining processes; in half of the runs the hooks are inactive (they take no lock then, so they cannot hide a race), in a quarter seeded delays at the hook points; a DATA RACE report (exit 66) is a failing input; the race detector is search, not proof; every case is distinct and non-trivial"
+    rep.cov["rule"] = "workflows built with `go build -race -tags verif`: fan-out of one out-port to several consumers incl. a tagging component (MapToTags) and sibling outputs, tagging on a shared source plus group-by-tag concatenation, fan-in with multi-core tasks and parameter feeders, sub-streams + streaming + chains, sibling consumers whose output patterns use path modifiers / default names / parameter feeders, a tagging component beside a Concatenator on one out-port, one sub-stream carrier fanned out to several joining processes, chains of processes with FromStr parameter feeders run with RunTo; in half of the runs the hooks are inactive (they take no lock then, so they cannot hide a race), in a quarter seeded delays at the hook points; a DATA RACE report (exit 66) is a failing input; the race detector is search, not proof; every case is distinct and non-trivial"
     rep.cov["rule"] += "; plus kitchen-sink workflows (tools/ks.py: random workflows decorated with tagging components, sub-streams, Concatenator / FileSplitter, streamed pairs, component parameter feeders, Go-function and multi-core processes, RunTo) judged by the model-free race-detector oracle"
     rep.cov["samples"] = [results[0]["spec"]]
     kinds = {}
